@@ -149,6 +149,11 @@ func c19(c *h.Ctx) {
 			cjobs = append(cjobs, cj{f, t})
 		}
 	}
+	// invocations in which no task ever starts (the output layer is closed before it drew anything), several times
+	// each: what happens at shutdown races with the end of the process
+	for k := 0; k < c.N(8, 40); k++ {
+		cjobs = append(cjobs, cj{"cockpit", "skipped"}, cj{"cockpit", "before-fails"}, cj{"prefixed", "skipped"})
+	}
 	exCh := make(chan [2]string, len(cjobs))
 	exVal := make(chan int, len(cjobs))
 	h.Par(len(cjobs), 8, func(i int) {
